@@ -5,6 +5,12 @@
 //! defined by /verif/check; the binaries only explore what they are given.
 
 use polldfs_core::*;
+#[cfg(any(feature = "cfg-std", feature = "cfg-alloc"))]
+pub mod co;
+pub mod futs;
+#[cfg(any(feature = "cfg-std", feature = "cfg-alloc"))]
+pub mod groups;
+pub mod strs;
 use std::collections::BTreeMap;
 use std::io::Write;
 
